@@ -279,6 +279,10 @@ pub fn drive(d: &mut Driver)
 	}
 	jobs.push(json!({"kind": "lengths"}));
 	jobs.push(json!({"kind": "lengths2d"}));
+	for bits in [8, 16, 32, 64, 128]
+	{
+		jobs.push(json!({"kind": "wordsizes", "bits": bits}));
+	}
 	let nm = member_types().len();
 	for a in 0..nm
 	{
@@ -317,6 +321,7 @@ pub fn work(spec: &Value, w: &mut WorkerCtx)
 		}
 		"lengths" => lengths(w),
 		"lengths2d" => lengths_2d(w),
+		"wordsizes" => word_sizes(spec["bits"].as_u64().unwrap() as usize, w),
 		"sizes" => sizes(spec["first"].as_u64().unwrap() as usize, w),
 		other => panic!("unknown kind {other}"),
 	}
@@ -578,6 +583,93 @@ fn lengths_2d(w: &mut WorkerCtx)
 				w.result.outcome("lengths of dimensions:rejected:MISMATCH");
 				w.result.violation(&format!("valid-length-program-rejected:E{}:{form}", codes.first().copied().unwrap_or(0)), text.len() as u64, &desc, || format!("{what}: rejected with {codes:?}\n{text}"));
 			}
+		}
+	}
+}
+
+/// Sizes of words: every member list of up to three members that fits the declared size
+/// (exactly or with room to spare). `|:W|` is the storage of the members, `|:[3]W|` three times
+/// that, and a structure of two such words follows the layout model.
+fn word_sizes(bits: usize, w: &mut WorkerCtx)
+{
+	let all = member_types();
+	let ms: Vec<&MemberTy> = all.iter().filter(|m| ["i8", "i16", "i32", "i64", "bool", "char8"].contains(&m.text)).collect();
+	let mut lists: Vec<Vec<&MemberTy>> = Vec::new();
+	for a in &ms
+	{
+		lists.push(vec![*a]);
+		for b in &ms
+		{
+			lists.push(vec![*a, *b]);
+			for c in &ms
+			{
+				lists.push(vec![*a, *b, *c]);
+			}
+		}
+	}
+	let lists: Vec<Vec<&MemberTy>> = lists.into_iter().filter(|l| layout(l).0 * 8 <= bits).collect();
+	let mut text = String::new();
+	let mut expected: Vec<(String, String)> = Vec::new();
+	for (i, l) in lists.iter().enumerate()
+	{
+		let body: String = l.iter().enumerate().map(|(k, m)| format!("\tm{k}: {},\n", m.text)).collect();
+		text.push_str(&format!("word{bits} W{i}\n{{\n{body}}}\nstruct C{i}\n{{\n\tfirst: W{i},\n\tsecond: W{i},\n\ttail: i8,\n}}\n"));
+		let (size, align) = layout(l);
+		let as_member = MemberTy { text: "W", size, align };
+		let tail = MemberTy { text: "i8", size: 1, align: 1 };
+		let (csize, _) = layout(&[&as_member, &as_member, &tail]);
+		expected.push((l.iter().map(|m| m.text).collect::<Vec<_>>().join(", "), format!("{size} {} {csize}", 3 * size)));
+	}
+	text.push_str("fn main() -> u8\n{\n");
+	for (i, _) in lists.iter().enumerate()
+	{
+		text.push_str(&format!("\tprint!(|:W{i}|, \" \", |:[3]W{i}|, \" \", |:C{i}|, \"\\n\");\n"));
+	}
+	text.push_str("\treturn: 0\n}\n");
+	w.result.states += lists.len() as u64;
+	w.result.transitions += lists.len() as u64;
+	let desc = || json!({"kind": "wordsizes", "bits": bits, "sig_hint": "sizes"});
+	let d = desc().to_string().into_bytes();
+	let Some((v, exec)) = compile_and_run(&text, &d, w)
+	else
+	{
+		return;
+	};
+	match (&v, exec)
+	{
+		(Verdict::Ok { .. }, Some(exec)) =>
+		{
+			let lines: Vec<&str> = exec.stdout.lines().collect();
+			if exec.status != Some(0) || lines.len() != lists.len()
+			{
+				w.result.violation("execution-failed:word sizes", 1000, &desc, || format!("lli status {:?}; {} lines for {}; {}", exec.status, lines.len(), lists.len(), exec.stderr_tail));
+				return;
+			}
+			for (i, (members, want)) in expected.iter().enumerate()
+			{
+				w.result.validated += 1;
+				if lines[i] != want
+				{
+					let got: Vec<&str> = lines[i].split(' ').collect();
+					let wanted: Vec<&str> = want.split(' ').collect();
+					let what = if got.first() != wanted.first() { "word-size" } else if got.get(1) != wanted.get(1) { "array-of-word-size" } else { "struct-of-words-size" };
+					let filled = if layout(&lists[i]).0 * 8 == bits { "exactly filled" } else { "with room to spare" };
+					w.result.outcome("word sizes:MISMATCH");
+					w.result.violation(&format!("wrong-size:{what}:{filled}"), members.len() as u64, &desc, || {
+						format!("word{bits} {{ {members} }} ({filled}): |:W|, |:[3]W| and |:struct {{ W, W, i8 }}| print `{}`, the layout model gives `{want}`", lines[i])
+					});
+				}
+				else
+				{
+					w.result.outcome("word sizes:agree");
+				}
+			}
+		}
+		(other, _) =>
+		{
+			let codes = other.codes();
+			w.result.outcome("word sizes:rejected:MISMATCH");
+			w.result.violation(&format!("valid-word-program-rejected:E{}", codes.first().copied().unwrap_or(0)), 1000, &desc, || format!("word{bits}: rejected with {codes:?}"));
 		}
 	}
 }
